@@ -120,8 +120,14 @@ func RunC10(p *harness.Program) Result {
 			if a2.v != nil || b2.v != nil {
 				return "run failed"
 			}
+			// each variant has to agree with itself: the implementation iterates Go maps when it
+			// flushes, which (rarely) changes how many metadata pages a commit needs and with it
+			// the number of allocatable pages - in either variant
+			if compareOutcomes(&a, &a2, p, !overflow) != "" || compareOutcomes(&b, &b2, p, !overflow) != "" {
+				return "variant does not agree with itself"
+			}
 			return compareOutcomes(&a2, &b2, p, !overflow)
-		}, 3)
+		}, 8)
 		if !stable {
 			c["unstable-diff"]++
 			return Result{Counters: c}
